@@ -610,6 +610,12 @@ func (s *Server) startRaftLeadershipLoop(node *raftNode) {
 							// Step down as leader.
 							s.logger.Warn("Stepping down as metadata leader")
 							if future := node.LeadershipTransfer(); future.Error() != nil {
+								if future.Error() == raft.ErrNotLeader {
+									// The leadership is already gone (which
+									// probably is what failed the promotion),
+									// there is nothing to step down from.
+									continue
+								}
 								panic(errors.Wrap(future.Error(), "error on metadata leadership step down"))
 							}
 							continue
